@@ -148,6 +148,30 @@ def doMQR (ord dir lo hi sids spec : String) : String :=
   | some a, some b, some ss, some parts => showGroups (measureQuery parts ss a b (ord == "ts") (dir != "desc"))
   | _, _, _, _ => "bad-op"
 
+
+def parseKT (s : String) : Option Elem :=
+  match s.splitOn ":" with
+  | [k, id] => k.toInt?.map fun key => { sid := 1, key := key, data := id }
+  | _ => none
+
+def parseInstance (s : String) : Option (List (List Elem)) :=
+  if s == "-" then some [] else (s.splitOn ";").mapM fun p => (p.splitOn ",").mapM parseKT
+
+def parseDir (s : String) : Option SortDir :=
+  match s with
+  | "asc" => some .asc | "desc" => some .desc | "unspec" => some .unspec | "nil" => some .none | _ => none
+
+def doTSidx (dir mbs mt spec : String) : String :=
+  match parseDir dir, mbs.toNat?, mt.toNat?, (spec.splitOn "|").mapM parseInstance with
+  | some d, some m, some t, some insts =>
+    joinOr "-" "/" ((traceStreamSIDX d m t insts).map fun b => joinOr "_" "," (b.map fun e => s!"{e.key}:{e.data}"))
+  | _, _, _, _ => "bad-op"
+
+def doSLimit (off lim spec : String) : String :=
+  match off.toNat?, lim.toNat?, (spec.splitOn "|").mapM (fun p => if p == "-" then some [] else (p.splitOn ",").mapM (·.toInt?)) with
+  | some o, some l, some pulls => joinOr "-" "," ((streamLimit o l pulls).map toString)
+  | _, _, _ => "bad-op"
+
 def handle (line : String) : String :=
   match words line with
   | ["sort", dir, spec] => doSort dir spec
@@ -158,6 +182,8 @@ def handle (line : String) : String :=
   | ["smerge", dir, spec] => doSMerge dir spec
   | ["topq", n, kind, vals] => doTopQ n kind vals
   | ["mqr", ord, dir, lo, hi, sids, spec] => doMQR ord dir lo hi sids spec
+  | ["tsidx", dir, mbs, mt, spec] => doTSidx dir mbs mt spec
+  | ["slimit", _, off, lim, spec] => doSLimit off lim spec
   | _ => "bad-op"
 
 def main : IO Unit := runDriver handle
